@@ -492,15 +492,27 @@ def eval_case(ctx, case):
         # an earlier, longer migration result at the same --outfile path: nothing of it may survive
         with open(out, "w") as f:
             f.write("all: true\ndir: stale-dir\nstructname: StaleName\npackages:\n" + "".join("  example.com/stale/p%d:\n    config:\n      all: true\n" % k for k in range(200)))
+    feeder = None
+    cfg_arg = v2path
+    if case.get("via_fifo") and not search:
+        # the v2 configuration reaches the tool through a named pipe (`--config <(gen)`, /dev/stdin): its size is unknown before it is read
+        cfg_arg = os.path.join(root, "v2pipe.yml")
+        feeder = core.FifoFeeder(cfg_arg, text)
     before = core.snapshot(root)
-    margs = ["migrate"] if search else ["migrate", "--config", v2path, "--outfile", out]
+    margs = ["migrate"] if search else ["migrate", "--config", cfg_arg, "--outfile", out]
     menv = None
     if case["i"] % 3 == 0:
         # the system temp directory lies on another file system than the project (tmpfs /tmp next to a project on disk, bind mounts in containers)
         other = other_fs_tmpdir(ctx, root)
         if other:
             menv = {"TMPDIR": other}
-    r = core.run_mockery(ctx, cwd, margs, env_extra=menv, timeout=600, cpu_limit=60)
+    try:
+        r = core.run_mockery(ctx, cwd, margs, env_extra=menv, timeout=600, cpu_limit=60, block_window=20 if feeder else None)
+    finally:
+        if feeder:
+            feeder.close()
+    if feeder and r.blocked:
+        return Verdict.violated("the v2 file is a named pipe with a writer waiting: migrate neither failed nor finished (blocked)", r.brief(), ["config-via-fifo"])
     if r.timed_out:
         return Verdict.inconclusive("watchdog")
     if search and case.get("twice") and r.exit == 0:
@@ -529,7 +541,7 @@ def eval_case(ctx, case):
                     levels.add("iface")
                 if ic.get("configs"):
                     levels.add("configs")
-    tags = ["level=" + l for l in sorted(levels)] + (["search=" + search] + (["twice"] if case.get("twice") else []) if search else [])
+    tags = ["level=" + l for l in sorted(levels)] + (["search=" + search] + (["twice"] if case.get("twice") else []) if search else []) + (["config-via-fifo"] if feeder else [])
     if r.panicked:
         return Verdict.violated("migrate crashed with a Go panic", dict(obs, **r.brief()), tags)
     if hashlib.sha256(open(v2path, "rb").read()).hexdigest() != h0:
@@ -570,6 +582,10 @@ def body(ctx, replay=None):
                        "recursive: true is only generated together with package names that exist in the scratch module (the loader lists sub-packages)",
                        "with-expecter is tolerated under template-data (carried by the tool, not in the property's list), never required"]
     cases = [replay] if replay is not None else gen_cases(ctx)
+    if replay is None:
+        # the first plain cases once more with the v2 file handed over through a named pipe
+        plain = [c for c in cases if not c.get("search") and not c.get("stale_outfile")][: (6 if ctx.tier == "quick" else 40)]
+        cases += [dict(c, i=90000 + k * 3 + 1, via_fifo=True) for k, c in enumerate(plain)]
     ctx.run_cases(cases, eval_case)
     return ctx.finish()
 
